@@ -17,6 +17,7 @@ import (
 
 	"github.com/cakturk/go-netstat/netstat"
 	"github.com/f1bonacc1/process-compose/src/types"
+	"github.com/f1bonacc1/process-compose/src/verif"
 
 	"github.com/f1bonacc1/process-compose/src/command"
 	"github.com/f1bonacc1/process-compose/src/health"
@@ -103,9 +104,11 @@ func NewProcess(opts ...ProcOpts) *Process {
 }
 
 func (p *Process) run() int {
+	verif.Yield("run:enter")
 	if p.isState(types.ProcessStateTerminating) {
 		return 0
 	}
+	verif.Yield("run:checked")
 
 	if err := p.validateProcess(); err != nil {
 		log.Error().Err(err).Msgf(`Failed to run command ["%v"] for process %s`, strings.Join(p.getCommand(), `" "`), p.getName())
@@ -140,6 +143,7 @@ loop:
 		p.Lock()
 		p.setExitCode(p.command.ExitCode())
 		p.Unlock()
+		verif.Yield("run:exited")
 		log.Info().
 			Str("process", p.getName()).
 			Int("exit_code", p.getExitCode()).
@@ -155,14 +159,17 @@ loop:
 		}
 		p.setState(types.ProcessStateRestarting)
 		p.procState.Restarts += 1
+		verif.Obs("restarts %s %d", p.getName(), p.procState.Restarts)
 		log.Info().Msgf("Restarting %s in %v second(s)... Restarts: %d",
 			p.getName(), p.getBackoff().Seconds(), p.procState.Restarts)
 
+		verif.Park("backoff")
 		select {
 		case <-p.procRunCtx.Done():
 			log.Debug().Str("process", p.getName()).Msg("process stopped while waiting to restart")
 			break loop
 		case <-time.After(p.getBackoff()):
+			verif.Yield("backoff:elapsed")
 			p.handleInfo("\n")
 			continue
 		}
@@ -172,6 +179,7 @@ loop:
 }
 
 func (p *Process) waitForStdOutErr() {
+	verif.Await("cmd:wait", func() bool { return verifCmdDone(p) })
 	ctx, cancel := context.WithCancel(context.Background())
 	if p.procConf.IsDaemon {
 		ctx, cancel = context.WithTimeout(context.Background(), time.Duration(p.procConf.LaunchTimeout)*time.Second)
@@ -322,6 +330,7 @@ func (p *Process) isRestartable() bool {
 }
 
 func (p *Process) waitForStarted() {
+	verif.Await("wait:started", func() bool { return verifStartedOrCancelled(p) })
 	select {
 	case <-p.procStartedChan:
 	case <-p.procRunCtx.Done():
@@ -329,6 +338,7 @@ func (p *Process) waitForStarted() {
 }
 
 func (p *Process) waitForCompletion() int {
+	verif.Await("wait:done", func() bool { p.Lock(); defer p.Unlock(); return p.done })
 	p.Lock()
 	defer p.Unlock()
 
@@ -339,6 +349,7 @@ func (p *Process) waitForCompletion() int {
 }
 
 func (p *Process) waitUntilReady() bool {
+	verif.Await("wait:ready", func() bool { return p.procReadyCtx.Err() != nil })
 	<-p.procReadyCtx.Done()
 	if p.procState.Health == types.ProcessHealthReady {
 		return true
@@ -350,6 +361,7 @@ func (p *Process) waitUntilReady() bool {
 }
 
 func (p *Process) waitUntilLogReady() bool {
+	verif.Await("wait:logready", func() bool { return p.procLogReadyCtx.Err() != nil })
 	<-p.procLogReadyCtx.Done()
 	err := context.Cause(p.procLogReadyCtx)
 	if errors.Is(err, context.Canceled) {
@@ -382,7 +394,9 @@ func (p *Process) internalStop() error {
 
 func (p *Process) stopProcess(cancelReadinessFuncs bool) error {
 	p.runCancelFn()
+	verif.Yield("stop:enter")
 	if !p.isRunning() {
+		verif.Yield("stop:notrunning")
 		log.Debug().Msgf("process %s is in state %s not shutting down", p.getName(), p.getStatusName())
 		// prevent pending process from running
 		if p.isOneOfStates(types.ProcessStatePending) {
@@ -390,7 +404,9 @@ func (p *Process) stopProcess(cancelReadinessFuncs bool) error {
 		}
 		return nil
 	}
+	verif.Yield("stop:checked")
 	p.setState(types.ProcessStateTerminating)
+	verif.Yield("stop:marked")
 	p.stopProbes()
 	if cancelReadinessFuncs {
 		if p.readyProber != nil {
@@ -414,7 +430,9 @@ func (p *Process) stopProcess(cancelReadinessFuncs bool) error {
 func (p *Process) forceKillOnTimeout() error {
 	p.mtxStopFn.Lock()
 	p.waitForStoppedCtx, p.waitForStoppedFn = context.WithTimeout(context.Background(), time.Duration(p.procConf.ShutDownParams.ShutDownTimeout)*time.Second)
+	p.waitForStoppedCtx, p.waitForStoppedFn = verifStopCtx(p, p.waitForStoppedCtx, p.waitForStoppedFn)
 	p.mtxStopFn.Unlock()
+	verif.Await("stop:waitkill", func() bool { return p.waitForStoppedCtx.Err() != nil })
 	<-p.waitForStoppedCtx.Done()
 	err := p.waitForStoppedCtx.Err()
 	switch {
@@ -471,6 +489,7 @@ func (p *Process) onProcessStart() {
 	p.started = true
 	p.Unlock()
 	close(p.procStartedChan)
+	verif.Obs("started %s", p.getName())
 }
 
 func (p *Process) onProcessEnd(state string) {
@@ -493,6 +512,7 @@ func (p *Process) onProcessEnd(state string) {
 	p.Lock()
 	p.done = true
 	p.Unlock()
+	verif.Obs("done %s", p.getName())
 	p.procCond.Broadcast()
 }
 
@@ -623,10 +643,12 @@ func (p *Process) handleOutput(pipe io.ReadCloser, output string, handler func(m
 		if p.procConf.ReadyLogLine != "" && p.procState.Health == types.ProcessHealthUnknown && strings.Contains(line, p.procConf.ReadyLogLine) {
 			p.procState.Health = types.ProcessHealthReady
 			p.readyLogCancelFn(nil)
+			verif.Obs("logready %s", p.getName())
 		}
 		p.checkElevatedProcOutput(line)
 		handler(strings.TrimSuffix(line, "\n"))
 	}
+	verif.Signal("outdone:" + p.getName())
 	close(done)
 }
 
@@ -726,6 +748,7 @@ func (p *Process) setStateAndRun(state string, runnable func() error) error {
 }
 
 func (p *Process) onStateChange(state string) {
+	verif.Obs("state %s %s", p.getName(), state)
 	switch state {
 	case types.ProcessStateSkipped:
 		p.setExitCode(1)
@@ -862,6 +885,7 @@ func (p *Process) setExitCode(code int) {
 	defer p.confMtx.Unlock()
 	p.confMtx.Lock()
 	p.procState.ExitCode = code
+	verif.Obs("exit %s %d", p.getName(), code)
 }
 
 // set elevated process password
